@@ -285,14 +285,22 @@ def cascade_listing(prog, an, rep):
     called bugfix/development/9.9 would count as development/9.9."""
     R = 'C18.LNG.cascade-listing'
     f = need_func(an, BR + '.BranchCascade.build')
-    calls = [x for x in prog.calls_in(f)
+    calls = [(x, dotted(x.func), x.args[0]) for x in prog.calls_in(f)
              if (dotted(x.func) or '').startswith('re.') and len(x.args) == 2]
+    # the bound method of a compiled pattern handed to map() / filter()
+    for x in ast.walk(f.node):
+        if isinstance(x, ast.Attribute) and x.attr in (
+                'match', 'fullmatch', 'search') and \
+                isinstance(x.value, ast.Call) and \
+                dotted(x.value.func) == 're.compile' and x.value.args and \
+                not any(isinstance(c_, ast.Call) and c_.func is x
+                        for c_ in ast.walk(f.node)):
+            calls.append((x, 're.' + x.attr, x.value.args[0]))
     rep.floor('C18 name extraction in BranchCascade.build', len(calls), 1)
-    for x in calls:
+    for x, fn, pat_e in calls:
         rep.evaluated()
-        fn = dotted(x.func)
         try:
-            pat = const_value(substitute_locals(f, x.args[0]))
+            pat = const_value(substitute_locals(f, pat_e))
         except AnalysisError:
             pat = None
         ok = fn in ('re.match', 're.fullmatch') and isinstance(pat, str) \
